@@ -129,12 +129,18 @@ func (s *tscenario) body(env *tenv) (string, string, string) {
 	cl := env.cl
 	switch {
 	case strings.HasPrefix(s.name, "client.Metadata"):
-		return twice(func() error {
+		first, next, data := twice(func() error {
 			ctx, cancel := ctx3()
 			defer cancel()
 			_, err := cl.Metadata(ctx, &kafka.MetadataRequest{Topics: []string{ttopic}})
 			return err
 		})(env)
+		// a Metadata call is answered from the pool's cached state: the request whose response is cut is the pool's own
+		// refresh; whether the caller still sees that refresh's error or already the next one's result is timing
+		if first == "ok" || first == "err" {
+			first = "returned"
+		}
+		return first, next, data
 	case strings.HasPrefix(s.name, "client.ListOffsets"):
 		return twice(func() error {
 			ctx, cancel := ctx3()
